@@ -130,6 +130,8 @@ fn plan_json(p: &Plan) -> Value {
 /// try_stream_replace_all_with: closure calls and writes share one counter
 /// for the injected failure so that "the k-th emission fails".
 pub fn run_replace(ac: &AhoCorasick, p: &Plan) -> Value {
+    let work = std::env::var("ACVERIF_STREAM_WORK").is_ok();
+    if work { aho_corasick::verif::reset_counters(u64::MAX); }
     let log: Log = Rc::new(RefCell::new(vec![]));
     aho_corasick::verif::set_buffer_capacity(if p.cap == 0 { None } else { Some(p.cap) });
     let rdr = ScriptedReader {
@@ -193,6 +195,7 @@ pub fn run_replace(ac: &AhoCorasick, p: &Plan) -> Value {
     v["mode"] = json!("replace");
     v["ops"] = json!(ops);
     v["end"] = json!(end);
+    if work { v["trans"] = json!(aho_corasick::verif::counters().0); }
     v
 }
 
@@ -263,6 +266,8 @@ pub fn run_replace_table_ops(ac: &AhoCorasick, p: &Plan, rep: &[Vec<u8>]) -> Val
 
 /// StreamFindIter: reads and yielded items in order
 pub fn run_find(ac: &AhoCorasick, p: &Plan, repoll: bool) -> Value {
+    let work = std::env::var("ACVERIF_STREAM_WORK").is_ok();
+    if work { aho_corasick::verif::reset_counters(u64::MAX); }
     let log: Log = Rc::new(RefCell::new(vec![]));
     aho_corasick::verif::set_buffer_capacity(if p.cap == 0 { None } else { Some(p.cap) });
     let rdr = ScriptedReader {
@@ -305,6 +310,7 @@ pub fn run_find(ac: &AhoCorasick, p: &Plan, repoll: bool) -> Value {
     v["mode"] = json!("find");
     v["ops"] = json!(ops);
     v["end"] = json!(end);
+    if work { v["trans"] = json!(aho_corasick::verif::counters().0); }
     v
 }
 
